@@ -177,6 +177,19 @@ def use_reassign(x, n):
     return x, y
 
 
+def use_reassign_dead(x, n):
+    y = _reassign(x, n)
+    return y + n
+
+
+def use_reassign_loop(x, n):
+    out = []
+    for k in range(3):
+        y = _reassign(x, n + k)
+        out.append((x, y))
+    return out
+
+
 def use_reassign_ret(x, n):
     return _reassign(x, n)
 
@@ -320,7 +333,7 @@ def main():
     lists = [[], [1], [2, 3], [1, 3, 5], [4, 6, 9, 12], [5, 4, 3, 2, 1], [-2, 7, -1, 0], [0, 2, 9]]
     cases = []
     for x, y in itertools.product(ints, ints):
-        for f in ("use_pred", "use_pair", "use_pair_attr", "use_reassign", "use_reassign_ret", "use_tuple_assign", "use_bounds"):
+        for f in ("use_pred", "use_pair", "use_pair_attr", "use_reassign", "use_reassign_ret", "use_tuple_assign", "use_bounds", "use_reassign_dead", "use_reassign_loop"):
             cases.append((f, (x, y)))
     for x in ints:
         for f in ("use_clip", "use_clip_ret", "use_mutate", "use_order", "use_chain", "use_ifexp", "use_while", "use_displays"):
